@@ -83,7 +83,9 @@ func (s *Stack) Cur() *State {
 const _MaxStackSP = uintptr(MaxStack * StateSize)
 
 func (s *Stack) Push(v State) bool {
-	if uintptr(s.sp) >= _MaxStackSP {
+	/* same limit as the generated code (save_state): the stack pointer stays below
+	 * _MaxStackSP after the push, so both back ends report "too deep" at the same depth */
+	if uintptr(s.sp)+uintptr(StateSize) >= _MaxStackSP {
 		return false
 	}
 	st := s.Top()
